@@ -135,7 +135,24 @@ def r5_r6_connection(ck, cx, cls):
         if not entered:
             continue
         loops += 1
-        it = entered[0].node.iter
+        # what the loop walks: the iterable of a `for`, or -- for an indexed `while` -- the sequence whose length bounds the index;
+        # a local is looked through to the value it was given before the loop
+        lnode = entered[0].node
+        li = p.ev.index(entered[0])
+
+        def _bound(name):
+            for e_ in reversed(p.ev[:li]):
+                if e_.kind == 'assign' and isinstance(e_.a, ast.Name) and e_.a.id == name:
+                    return e_.node.value
+            return None
+        if isinstance(lnode, ast.For):
+            it = lnode.iter
+            if isinstance(it, ast.Name) and _bound(it.id) is not None:
+                it = _bound(it.id)
+        else:
+            cands = [_bound(x.id) for x in ast.walk(lnode.test) if isinstance(x, ast.Name)]
+            cands = [c_ for c_ in cands if isinstance(c_, ast.Call)]
+            it = cands[0] if cands else lnode.test
         snap = isinstance(it, ast.Call) and callee_name(it) in ('list', 'tuple', 'sorted') and it.args and U(it.args[0]) in ('self.transaction', 'self.transaction.transactions')
         ck.ob('R5', f.qn, 'iterates a snapshot of all pending ids', snap, detail='iteration %s' % U(it), loc=cx.floc(f),
               message='connectionLost iterates %s while removing entries' % U(it))
